@@ -205,7 +205,7 @@ def _equilibrium(case):
         e = float(np.abs(f1 - f0).max() / np.abs(f0).max())
         if not e <= 1e-12:
             V('equilibrium-not-a-fixed-point', 'one driver step with eps = 0 changes f by %.3g relative (grid %r)' % (e, grid))
-        if np.abs(cps['phi_000002.h5'][0]).max() > 1e-12:
+        if not (np.abs(cps['phi_000002.h5'][0]).max() <= 1e-12):
             V('equilibrium-potential-not-zero', 'phi after one equilibrium step is %.3g (grid %r)' % (np.abs(cps['phi_000002.h5'][0]).max(), grid))
     finally:
         env.rm(d)
